@@ -8,6 +8,7 @@ RC=0
 for d in "$@"; do
   id=${d%%-*}
   if grep -q '"superseded"' "seeded/$d/meta.json"; then echo "SKIPPED  $d  (superseded, see meta.json)"; continue; fi
+  if grep -q '"not_detected_by_design"' "seeded/$d/meta.json"; then echo "TOLERATED $d  (inside the tolerance the property grants, see meta.json)"; continue; fi
   out=$(bin/try_seed.sh "seeded/$d" "$id" 2>&1)
   if echo "$out" | grep -q "^check $id: exit 1"; then echo "DETECTED $d  $(echo "$out" | grep '^check' | cut -c1-160)";
   else echo "MISSED   $d  $(echo "$out" | grep -E '^check|^SEED|^suite' | tr '\n' ' ' | cut -c1-200)"; RC=1; fi
